@@ -760,4 +760,85 @@ theorem processKick_queued {cfg : Cfg} {c : Nat} {channel : Str} {kickUsers : Li
         simp only [kickedOf, hn, hC, hcn, hho, ↓reduceIte, kickQueue]
         rfl
 
+/-! ## 4. NICK (re-proved here, see the header) -/
+
+/-- an accepted NICK of a registered connection: the line (the received message re-rendered with the
+    OLD source) is queued once to every user of the new world, in key order; nothing is written back -/
+theorem processNick_queued {cfg : Cfg} {c : Nat} {new : Str} {msg : Message} {x : Ctx} {old : Str}
+    {user : User} (ha : (x.conn c).authenticated = true) (hnick : (x.conn c).nick = some old)
+    (hne : new ≠ old) (hfree : Map.contains new x.w.users = false)
+    (hold : Map.lookup old x.w.users = some user) :
+    let y := processNick cfg c new msg x
+    y.queued = x.queued ++
+      (Map.keys y.w.users).map (fun m => (ownerOf y.w m, msg.render (x.conn c).source)) ∧
+    y.direct = x.direct := by
+  intro y
+  have e : y = _ := Reg.processNick_rename_eq (cfg := cfg) (msg := msg) ha hnick hne hfree hold
+  rw [Ctx.sendAll_known _ _ _ (fun n hn => Map.contains_of_mem_keys hn)] at e
+  rw [e]
+  exact ⟨rfl, rfl⟩
+
+theorem processNick_users {cfg : Cfg} {c : Nat} {new : Str} {msg : Message} {x : Ctx} {old : Str}
+    {user : User} (h : InvCore x.w) (ha : (x.conn c).authenticated = true)
+    (hnick : (x.conn c).nick = some old) (hne : new ≠ old)
+    (hfree : Map.contains new x.w.users = false) (hold : Map.lookup old x.w.users = some user) :
+    (processNick cfg c new msg x).w.users =
+      Map.insert new { user with source := ((x.conn c).setNick new).source } (Map.erase old x.w.users) := by
+  obtain ⟨chans', hW, _, _⟩ := Reg.processNick_rename_w (cfg := cfg) (msg := msg) h ha hnick hne hfree hold
+  rw [hW]
+
+/-- the recipients: the users of the new world are the old ones with `old` replaced by `new`; the owner
+    of every nickname is unchanged, `new` is owned by the connection that owned `old` -/
+theorem processNick_recipients {cfg : Cfg} {c : Nat} {new : Str} {msg : Message} {x : Ctx} {old : Str}
+    {user : User} (h : InvCore x.w) (ha : (x.conn c).authenticated = true)
+    (hnick : (x.conn c).nick = some old) (hne : new ≠ old)
+    (hfree : Map.contains new x.w.users = false) (hold : Map.lookup old x.w.users = some user) (k : Str) :
+    (k ∈ Map.keys (processNick cfg c new msg x).w.users ↔
+      k = new ∨ (k ≠ old ∧ k ∈ Map.keys x.w.users)) ∧
+    ownerOf (processNick cfg c new msg x).w new = ownerOf x.w old ∧
+    (k ≠ old → k ≠ new → ownerOf (processNick cfg c new msg x).w k = ownerOf x.w k) := by
+  have hu := processNick_users (cfg := cfg) (msg := msg) h ha hnick hne hfree hold
+  refine ⟨?_, ?_, ?_⟩
+  · rw [hu, Map.mem_keys_iff, Map.mem_keys_iff, Map.lookup_insert]
+    by_cases e1 : new = k
+    · subst e1; simp
+    · have e1' : ¬ k = new := fun e => e1 e.symm
+      rw [if_neg e1, Map.lookup_erase]
+      by_cases e2 : old = k
+      · subst e2; simp [e1']
+      · have e2' : ¬ k = old := fun e => e2 e.symm
+        simp [e1', e2, e2']
+  · unfold ownerOf
+    rw [hu, Map.lookup_insert_eq, hold]
+    rfl
+  · intro h1 h2
+    unfold ownerOf
+    rw [hu, Map.lookup_insert_ne _ _ _ _ (Ne.symm h2), Map.lookup_erase_ne _ _ _ (Ne.symm h1)]
+
+/-- a registered NICK that does not rename (own nickname, or nickname in use) queues nothing -/
+theorem processNick_noop_queued {cfg : Cfg} {c : Nat} {new : Str} {msg : Message} {x : Ctx} {old : Str}
+    (ha : (x.conn c).authenticated = true) (hnick : (x.conn c).nick = some old)
+    (hno : new = old ∨ Map.contains new x.w.users = true) :
+    (processNick cfg c new msg x).queued = x.queued ∧ (processNick cfg c new msg x).w = x.w := by
+  by_cases hne : new = old
+  · have : processNick cfg c new msg x = x := by
+      unfold processNick
+      simp only [ha, Bool.not_true, Bool.false_eq_true, ↓reduceIte, hnick, hne, bne_self_eq_false]
+    rw [this]; exact ⟨rfl, rfl⟩
+  · have hc : Map.contains new x.w.users = true := hno.elim (fun e => absurd e hne) id
+    have hb : (new != old) = true := by simpa using hne
+    unfold processNick
+    simp only [ha, Bool.not_true, Bool.false_eq_true, ↓reduceIte, hnick, hb, hc, Ctx.reply_w,
+      Ctx.reply_queued, and_self]
+
+/-- the NICK line is canonical when the client sent exactly `NICK <new>` -/
+theorem nick_line_canonical (msg : Message) (src new : Str) (hc : msg.command = str "NICK")
+    (hp : msg.params = [new])
+    (hplain : (new.any (fun ch => ch == ':' || ch == ' ' || ch == '\t') || new.isEmpty) = false) :
+    msg.render src = nickLine src new := by
+  unfold Message.render nickLine
+  rw [hc, hp]
+  simp only [renderParams, hplain, Bool.false_eq_true, ↓reduceIte]
+  simp [str]
+
 end Irc.C04A
